@@ -1,25 +1,27 @@
 // Unit c28_local_ids -- property C28 "Addresses and identifiers have lossless, network-bound text forms"
-// Real code (all bodies extracted verbatim on every run; 42 functions):
+// Real code (all bodies extracted verbatim on every run; 43 functions):
 //   radix-common/src/data/scrypto/model/non_fungible_local_id.rs
 //     StringNonFungibleLocalId::{validate_slice, new, value, as_bytes}, TryFrom<String>, TryFrom<&str>
 //     IntegerNonFungibleLocalId::{new, value}, From<u64>;  RUIDNonFungibleLocalId::{new, value}, From<[u8; 32]>
 //     BytesNonFungibleLocalId::{validate, new, value}, TryFrom<Vec<u8>>
 //     NonFungibleLocalId::{string, integer, bytes, ruid, const_string, const_integer, const_bytes, const_ruid, id_type,
 //       encode_body_common, decode_body_common, to_vec}, From<the four id structs>, From<u64>, From<[u8; 32]>,
-//       TryFrom<String>, TryFrom<Vec<u8>>;  fn is_canonically_formatted_integer (private; text form of integer ids)
+//       TryFrom<String>, TryFrom<Vec<u8>>;  fn is_canonically_formatted_integer (private; text form of integer ids);
+//       impl FromStr :: from_str (whole parser: panic-freedom for every &str, accepted ==> valid id of the bracket's kind)
 //   radix-common/src/address/{hrpset,decoder,encoder}.rs
 //     HrpSet::get_entity_hrp, AddressBech32Decoder::{validate_and_decode_ignore_hrp, validate_and_decode},
 //     AddressBech32Encoder::{encode, encode_to_fmt}
 // Strings: this vstd models `str` as Seq<char> with `str::as_bytes(s) == vstd::utf8::encode_utf8(s@)`, so the
 //   byte-level validation is tied to the CHARACTER-level grammar by lemmas proved here (lemma_scalar, lemma_utf8,
 //   lemma_string_bridge): no "ASCII only" restriction on the inputs of `new` / `string` / `const_string`.
-// Not in this unit (string formatting / third-party code): `impl FromStr` and `impl Display` for NonFungibleLocalId
-//   (bounded Kani harnesses in kani/c28_h), to_key (scrypto_encode of the whole payload), NonFungibleGlobalId,
+// Not in this unit (string formatting / third-party code): `impl Display` for NonFungibleLocalId, the exact acceptance
+//   set of from_str (bounded Kani harnesses in kani/c28_h), to_key (scrypto_encode of the whole payload), NonFungibleGlobalId,
 //   the Bech32m codec itself (bech32 crate; encoder.rs :: bech32_encode_to_fmt / bech32_check_hrp are copies of
 //   crate code and are part of the uninterpreted codec model), `From<&NetworkDefinition> for HrpSet` (format!),
 //   EntityType::from_repr (strum derive), the typed address wrappers (macro-generated).
-// @subst (4, all notational): `.map(Self::String)` and `.map_err(Variant)` x2 eta-expanded (Verus rejects constructor
-//   functions as values); `u64::{to,from}_be_bytes` routed through env fns with the std contract.
+// @subst (7): `.map(Self::String)` and `.map_err(Variant)` x4 eta-expanded (Verus rejects constructor functions as values);
+//   `u64::{to,from}_be_bytes` routed through env fns with the std contract; in from_str the hyphen filter/collect chain
+//   -> env::collect_without_hyphens and `.try_into()` -> `.try_into_array32()` (std contract; the `.unwrap()` stays an obligation).
 #![feature(pattern)]
 use vstd::prelude::*;
 verus! {
@@ -1345,11 +1347,17 @@ pub mod unit {
         @closure 1 := |_e: core::num::ParseIntError| -> (r: ParseNonFungibleLocalIdError) ensures r == ParseNonFungibleLocalIdError::InvalidInteger
         @closure 2 := |_e: hex::FromHexError| -> (r: ParseNonFungibleLocalIdError) ensures r == ParseNonFungibleLocalIdError::InvalidBytes
         @closure 4 := |_e: hex::FromHexError| -> (r: ParseNonFungibleLocalIdError) ensures r == ParseNonFungibleLocalIdError::InvalidRUID
-        @before <<hex::decode(&hyphen_stripped)>> #1
-            proof { assert(hex::HexSrc::src_bytes(&&hyphen_stripped).len() == 64); }
         @sig
             ensures
-                ret matches Ok(id) ==> wf(id),
+                // (no precondition: every &str) never panics; accepted ==> a VALID id, and the text has at least two
+                // characters and is bracketed by the pair of the id's kind. What the INNER text must be is not stated
+                // here: this vstd gives `&s[a..b]` on str a precondition (char boundaries) but no usable postcondition.
+                ret matches Ok(id) ==> wf(id) && s@.len() >= 2 && (match view_of(id) {
+                    IdView::String(_) => s@[0] == '<' && s@.last() == '>',
+                    IdView::Integer(_) => s@[0] == '#' && s@.last() == '#',
+                    IdView::Bytes(_) => s@[0] == '[' && s@.last() == ']',
+                    IdView::RUID(_) => s@[0] == '{' && s@.last() == '}',
+                }),
         @entry
             proof {
                 if s@.len() >= 2 && (s@[0] as u32) < 128 && (s@.last() as u32) < 128 { lemma_inner_slice(s@); }
